@@ -539,3 +539,19 @@ End PartC.
 (* the option operations as atomic sections do what their one-at-a-time definitions do *)
 Lemma oop_body_seq {Cfg} (o : oop Cfg) s l : run_body (oop_body o) s l = oop_seq o (s, l).
 Proof. destruct o; reflexivity. Qed.
+
+(* Part H: atomic message+newline writes give back exactly the messages, one per line *)
+Lemma lines_app m r : no_nl m = true -> lines (m ++ String nl r) = m :: lines r.
+Proof.
+  induction m as [|a m IH]; intros H; cbn [String.append lines].
+  - rewrite Ascii.eqb_refl. reflexivity.
+  - cbn [no_nl] in H. apply andb_prop in H. destruct H as [Ha Hm]. apply negb_true_iff in Ha.
+    rewrite Ha. rewrite (IH Hm). reflexivity.
+Qed.
+
+Lemma ui_lines_lemma ms : forallb no_nl ms = true -> lines (ui_stream ms) = ms.
+Proof.
+  induction ms as [|m r IH]; intros H; cbn [ui_stream]; [reflexivity|].
+  cbn [forallb] in H. apply andb_prop in H. destruct H as [Hm Hr].
+  rewrite (lines_app m _ Hm). rewrite (IH Hr). reflexivity.
+Qed.
